@@ -3,7 +3,8 @@ from vlib import g1check
 
 PROPERTY = "C01"
 LEVEL = "exploration"
-RULE = ("Programs: Hypothesis-generated with-programs (G1: generator / coroutine / async generator bodies over "
+RULE = ("Also a leg over managers the harness cannot instrument: linear nests (1-4 with / async with statements, 1-3 items) of standard-library managers, seven kinds of them implemented in C (threading.Lock / RLock, StringIO, BytesIO, memoryview, decimal.localcontext, file objects), the others in Python (nullcontext, suppress, closing, ExitStack, Condition, Semaphore, redirect_stdout, AsyncExitStack, aclosing), observed at every suspension point in trickery mode against the statically known active set (identity, order, is_async, varname). "
+        "Programs: Hypothesis-generated with-programs (G1: generator / coroutine / async generator bodies over "
         "with / async with (1-4 items, 16 target forms, 3 layouts), try/except/else/finally, for, while, if, match, "
         "return/return-const/return-value/break/continue/raise, swallowing and raising managers, managers whose "
         "__aenter__/__aexit__ suspend), plus a systematic table of exit shapes (kind x sync/async x nesting shape x "
@@ -50,8 +51,13 @@ def run(ctx):
     out = g1check.run(ctx, CFG, quick_n=640, thorough_n=60000, quick_table=100000, quick_shards=16)
     from vlib import staticleg
     staticleg.run(ctx, out, "static.exits", ["3.10", "3.11", "3.12"])
+    from vlib import cmgrleg
+    cmgrleg.run(ctx, out, "trick.")
     return out
 
 
 def replay(ctx, data):
+    if "stdlib_managers" in data.get("case", {}):
+        from vlib import cmgrleg
+        return cmgrleg.replay(ctx, data, "trick.")
     return g1check.replay(ctx, CFG, data)
